@@ -387,6 +387,7 @@ struct Dumper {
         gepDetail(cast<GEPOperator>(GEP));
       if (auto *LI = dyn_cast<LoadInst>(&I)) {
         J.attribute("sz", (int64_t)DL.getTypeStoreSize(LI->getType()));
+        J.attribute("align", (int64_t)LI->getAlign().value());
         if (LI->isVolatile())
           J.attribute("vol", true);
       }
@@ -394,6 +395,7 @@ struct Dumper {
         J.attribute("sz", (int64_t)DL.getTypeStoreSize(
                               SI->getValueOperand()->getType()));
         J.attribute("vty", tyStr(SI->getValueOperand()->getType()));
+        J.attribute("align", (int64_t)SI->getAlign().value());
         if (SI->isVolatile())
           J.attribute("vol", true);
       }
